@@ -247,6 +247,41 @@ def generate(tier, seed, ctx):
         else:
             fin = "T"
         R.append("c14.histx %s %d %s %s" % (tgt, len(items), " ".join(items), fin))
+    # --- the observed call made from INSIDE the integrand of a running integration of the same method (Miser in Miser, ...),
+    #     with integrands whose pre-samples find no split dimension in some node (narrow off-centre peak on an exact-zero
+    #     plateau; zero regions): many nesting positions, bit-for-bit against a fresh process
+    for k in range(240 if th else 90):
+        method = "Miser" if k % 3 else METHODS[k % 2]
+        d = rng.choice([2, 2, 3])
+        lo, hi = region_of(rng, d, rng.choice([0, 1]))
+        wmin = min(hi[i] - lo[i] for i in range(d))
+        p = [lo[i] + rng.uniform(0.15, 0.85) * (hi[i] - lo[i]) for i in range(d)] + [wmin * rng.choice([0.001, 0.002, 0.004, 0.01])]
+        n = rng.choice([1000, 4000])
+        tgt = call_str(method, rng.randrange(2 ** 32), lo, hi, n, 4, p)
+        od = rng.randint(1, 3)
+        olo, ohi = region_of(rng, od, rng.randrange(3))
+        on = rng.choice([500, 3000])
+        nk = rng.choice([1, 2, 16, 61, 100, on // 3, on // 2, on - 2])
+        outer = call_str(method if k % 5 else rng.choice(METHODS), rng.randrange(2 ** 32), olo, ohi, on, rng.choice([1, 5]), [])
+        R.append("c14.histx %s 0 N %d %s" % (tgt, nk, outer))
+    # --- pinned random_device words (0, 1, 2^31, 2^32-1): the same call in two fresh processes / after a history is bit-identical
+    for sd in (0, 1, 2 ** 31, 2 ** 32 - 1):
+        for method in METHODS:
+            d = rng.randint(1, 3)
+            lo, hi = region_of(rng, d, 1)
+            fid = rng.choice([1, 5])
+            n = rng.choice([500, 2000])
+            tgt = call_str(method, sd, lo, hi, n, fid, [])
+            R.append("c14.call " + tgt)
+            R.append("c14.hist %s 0" % tgt)                                    # twice, each first in a fresh process
+            hlo, hhi = region_of(rng, 2, 1)
+            R.append("c14.hist %s 1 %s" % (tgt, call_str(rng.choice(METHODS), rng.choice([0, 7]), hlo, hhi, 700, 1, [])))
+            for dd in (2, 3):
+                l2, h2 = region_of(rng, dd, 1)
+                lim = []
+                for i in range(dd):
+                    lim += [l2[i], h2[i]]
+                R.append("c14.fhist%d %s %d %s %d %d %s 0" % (dd, method, sd, " ".join(hx(v) for v in lim), 1000, 5, lst([])))
     # --- front ends
     for k in range(90 if th else 36):
         method = METHODS[k % 3]
